@@ -6,25 +6,25 @@
 import sys, os, re, json, glob, subprocess, shutil, concurrent.futures
 ROOT = '/verif'
 
-def patches(ID):
+def patches(ID, root='/tmp/mut'):
     out = []
-    for p in sorted(glob.glob('/tmp/mut/%s/out/patch*.diff' % ID)):
+    for p in sorted(glob.glob('%s/%s/out/patch*.diff' % (root, ID))):
         n = re.search(r'patch(\d+)\.diff', p).group(1)
         demo = None
         for cand in ('demo%s_test.go' % n, 'demo%s' % n, 'demo%s/' % n):
-            q = '/tmp/mut/%s/out/%s' % (ID, cand)
+            q = '%s/%s/out/%s' % (root, ID, cand)
             if os.path.exists(q):
                 demo = q.rstrip('/')
                 break
         out.append((n, p, demo))
     return out
 
-def verify(ID, n, patch, demo):
+def verify(ID, n, patch, demo, root='/tmp/mut', tag=''):
     r = subprocess.run([ROOT + '/tools/verify_seed.sh', patch, demo, 'suite'], stdout=subprocess.PIPE, stderr=subprocess.STDOUT, timeout=3000)
     txt = r.stdout.decode(errors='replace')
     ok = ('demo on unchanged tree: rc=0' in txt and 'build with patch: rc=0' in txt and
           'unexpected failing tests=0' in txt and re.search(r'demo with patch: rc=[1-9]', txt) is not None)
-    d = os.path.join(ROOT, 'seeded', '%s-%s' % (ID, n))
+    d = os.path.join(ROOT, 'seeded', '%s-%s%s' % (ID, tag, n))
     os.makedirs(d, exist_ok=True)
     shutil.copy(patch, os.path.join(d, 'patch.diff'))
     if os.path.isdir(demo):
@@ -32,22 +32,25 @@ def verify(ID, n, patch, demo):
         shutil.copytree(demo, os.path.join(d, 'demo'))
     else:
         shutil.copy(demo, os.path.join(d, 'demo_test.go.txt'))
-    readme = '/tmp/mut/%s/out/README.md' % ID
+    readme = '%s/%s/out/README.md' % (root, ID)
     if os.path.exists(readme):
         shutil.copy(readme, os.path.join(d, 'README.agent.md'))
     meta = {'property': ID, 'patch': 'patch.diff', 'confirmed': ok, 'verify_output': txt[-1500:]}
+    if tag:
+        meta['round'] = 2
     json.dump(meta, open(os.path.join(d, 'meta.json'), 'w'), indent=1)
-    return ID, n, ok, txt
+    return ID, tag + n, ok, txt
 
-if sys.argv[1] == 'verify':
+if sys.argv[1] in ('verify', 'verify2'):
+    root, tag = ('/tmp/mut2', 'r2-') if sys.argv[1] == 'verify2' else ('/tmp/mut', '')
     jobs = []
     with concurrent.futures.ThreadPoolExecutor(max_workers=4) as ex:
         for ID in sys.argv[2:]:
-            for n, p, demo in patches(ID):
+            for n, p, demo in patches(ID, root):
                 if demo is None:
                     print(ID, n, 'NO DEMO')
                     continue
-                jobs.append(ex.submit(verify, ID, n, p, demo))
+                jobs.append(ex.submit(verify, ID, n, p, demo, root, tag))
         for j in jobs:
             ID, n, ok, txt = j.result()
             print('%s-%s confirmed=%s' % (ID, n, ok))
